@@ -1,6 +1,7 @@
 """E3/E4 -- executor for (program, schedule) cases with always-on monitors (public API only)."""
 
 import asyncio
+import gc
 
 from plumpy import ProcessState
 from plumpy.base.state_machine import StateEventHook
@@ -9,6 +10,9 @@ from plumpy.exceptions import ClosedError
 from . import programs, world
 from .programs import NOVALUE, control
 from .steploop import StepLoop
+
+_CASES = 0
+gc.disable()  # collections happen between cases only (deterministic, hermetic)
 
 TERMINAL = ('finished', 'excepted', 'killed')
 LIVE = ('created', 'running', 'waiting')
@@ -38,6 +42,7 @@ class Exec:
         self.sample_current = sample_current
         self.construct_error = None
         self.n_waits_resumed = 0
+        self.delivered = {}  # wait serial -> first value delivered by resume() while WAITING
         self.listener = None
         self.harness_errors = []
 
@@ -50,15 +55,32 @@ class Exec:
         return self
 
     def __exit__(self, *exc):
+        # Hermeticity: nothing of this case may run later (a suspended coroutine finalised by the garbage
+        # collector during a later case would write into that case's world).  Unwind every task now.
+        global _CASES
         try:
+            for _ in range(3):
+                tasks = [t for t in asyncio.all_tasks(self.loop) if not t.done()]
+                if not tasks:
+                    break
+                with self.loop.as_running():
+                    for task in tasks:
+                        task.cancel()
+                self.loop.drain(500)
             for task in list(asyncio.all_tasks(self.loop)):
                 task._log_destroy_pending = False
                 if task.done() and not task.cancelled():
-                    task.exception()  # mark retrieved; judged via observe()
+                    task.exception()  # mark retrieved; judged via views()
         except Exception:  # noqa: BLE001
             pass
         self.loop.shutdown()
         asyncio.set_event_loop(None)
+        world.reset(None)  # late writes (if any) land in a world nobody reads
+        self.proc = None
+        self.task = None
+        _CASES += 1
+        if _CASES % 64 == 0:
+            gc.collect()
         return False
 
     def start(self, create_task=True):
@@ -173,6 +195,10 @@ class Exec:
             return None
         phase = self.phase()
         epoch = self.epoch()
+        if kind == 'resume' and self.state == 'waiting':
+            serial = self._wait_serial()
+            self.delivered.setdefault(serial, ev[1] if len(ev) > 1 else NOVALUE)
+            self.n_waits_resumed = max(self.n_waits_resumed, serial)
         with self.loop.as_running():
             rec = control(self.proc, kind, ev[1] if len(ev) > 1 else None, who=who)
         rec['phase'] = phase
@@ -206,14 +232,24 @@ class Exec:
                 self.event(['play'], who='settle')
                 progressed = True
             if resumes is not None and self.state == 'waiting' and not self.proc.paused:
-                if self._wait_serial() > self.n_waits_resumed and self.n_waits_resumed < len(resumes):
-                    value = resumes[self.n_waits_resumed]
-                    self.n_waits_resumed = self._wait_serial()
-                    self.event(['resume', value], who='settle')
+                serial = self._wait_serial()
+                if serial > self.n_waits_resumed and serial - 1 < len(resumes):
+                    self.event(['resume', resumes[serial - 1]], who='settle')
                     progressed = True
             if not progressed:
                 break
+        if play and self.proc.paused:
+            # every run is completed by a final play, also when the process terminated while a pause was in effect
+            self.event(['play'], who='settle')
         self.drain()
+        if open_gates:
+            # user code of a step that is still in flight (the process was terminated under it) must be able to finish
+            for _ in range(6):
+                with self.loop.as_running():
+                    opened = self.world.open_all_gates()
+                if not opened:
+                    break
+                self.drain()
 
     def _wait_serial(self):
         return sum(1 for t in self.transitions if t[1] == 'waiting')
